@@ -1,6 +1,7 @@
 import JetVerif.Model.Sexp
 import JetVerif.Model.Path
 import JetVerif.Model.Lex
+import Driver.Read
 
 open JetVerif
 
@@ -17,7 +18,60 @@ def lexCmd (l r lc rc input : List UInt8) : Sexp :=
   | .crash _ evs => .list (.atom "crash" :: (Lex.tokensOf evs).map tokSexp)
   | .outOfFuel evs => .list (.atom "fuel" :: (Lex.tokensOf evs).map tokSexp)
 
+def renderOut (cs : List Eval.Chunk) : Sexp :=
+  let rec go (acc : List UInt8) (out : Array Sexp) : List Eval.Chunk → Array Sexp
+    | [] => if acc.isEmpty then out else out.push (.bytes acc)
+    | c :: rest =>
+      match c.piece with
+      | .lit b => go (acc ++ b) out rest
+      | .flt f esc =>
+        let out := if acc.isEmpty then out else out.push (.bytes acc)
+        go [] (out.push (.list [.atom "F", Sexp.ofNat f.toNat, .atom (if esc == "" then "none" else esc)])) rest
+  .list (go [] #[] cs).toList
+
+def renderLog (l : List Eval.LogE) : Sexp :=
+  .list (l.map fun e => match e with
+    | .probe id => .list [.atom "probe", Sexp.ofInt id]
+    | .call fn n => .list [.atom "call", .atom fn, Sexp.ofNat n])
+
+def execCmd (store entry exts esc globals vars data fuel : Sexp) : Except String Sexp := do
+  let files ← (match store with
+    | .list (.atom "store" :: fs) => fs.mapM fun q => match q with
+      | .list [p, .atom "err"] => do pure (← Read.asBytes p, (none : Option Tmpl))
+      | .list [p, t] => do pure (← Read.asBytes p, some (← Read.readTmpl t))
+      | _ => Read.fail "bad store entry"
+    | _ => Read.fail "bad store")
+  let entryName ← Read.asBytes entry
+  let extsL ← (match exts with
+    | .list (.atom "exts" :: es) => es.mapM Read.asBytes
+    | _ => Read.fail "bad exts")
+  let escapee : Option String := match esc with
+    | .atom "nil" => none
+    | .atom n => some n
+    | _ => none
+  let env : Eval.Env := { store := files, exts := extsL, escapee := escapee, globals := ← Read.readBindings globals }
+  let vs ← Read.readBindings vars
+  let d ← Read.readVal data
+  let fl ← Read.asNat fuel
+  match Eval.findTmpl env entryName with
+  | none => pure (.list [.atom "unsupported", .atom "entry-template-missing"])
+  | some t =>
+    match Eval.execute fl env t vs d with
+    | .ok out log => pure (.list [.atom "ok", renderOut out, renderLog log])
+    | .err e out log =>
+      pure (.list [.atom "err", Sexp.ofBool e.located, .bytes e.loc.path, Sexp.ofNat e.loc.line, renderOut out, renderLog log,
+                   .atom ("what:" ++ ((e.what.replace " " "-").replace "(" "").replace ")" "")])
+    | .crash _ out => pure (.list [.atom "crash", renderOut out])
+    | .fuel => pure (.list [.atom "unsupported", .atom "fuel"])
+    | .unsupported w => pure (.list [.atom "unsupported", .atom (w.replace " " "-")])
+
 def dispatch : Sexp → Sexp
+  | .list [.atom "exec", store, entry, exts, esc, globals, vars, data, fuel] =>
+    match execCmd store entry exts esc globals vars data fuel with
+    | .ok r => r
+    | .error msg =>
+      let clean := ((msg.replace " " "-").replace "(" "").replace ")" ""
+      .list [.atom "unsupported", .atom ("reader:" ++ clean)]
   | .list [.atom "lex", .bytes l, .bytes r, .bytes lc, .bytes rc, .bytes input] => lexCmd l r lc rc input
   | .list [.atom "path-clean", .bytes p] => .bytes (Path.clean p)
   | .list (.atom "path-join" :: rest) =>
